@@ -231,6 +231,7 @@ type verifC08State struct {
 	owner map[string]string // content hash -> id / identity it belongs to
 	seen  map[string]bool   // content hashes observed in the shared parsed cache at some point
 	done  [][]string        // id lists of earlier compile ops
+	last  map[string][]acl.EnforcementDecision // ordered id list -> decision vector it got last time
 	nt    bool
 }
 
@@ -530,10 +531,15 @@ func (st *verifC08State) step(op verifC08Op) {
 		canon := append([]string{}, ids...)
 		sort.Strings(canon)
 		cold := st.coldVector(canon)
-		if d, res := st.diff(warm, cold, "shared-cache", "alone"); d != "" {
-			key := "C08/decision-depends-on-resolution-history/" + res
+		lk := strings.Join(ids, ",")
+		prevWarm, hadPrev := st.last[lk]
+		st.last[lk] = warm
+		if d, _ := st.diff(warm, cold, "shared-cache", "alone"); d != "" {
+			key := "C08/decision-depends-on-resolution-history"
 			if d2, _ := st.diff(warm, st.coldVector(ids), "a", "b"); d2 == "" {
-				key = "C08/policy-order-dependence/" + res // also differs without any history: the order is the cause
+				key = "C08/policy-order-dependence" // also differs without any history: the order is the cause
+			} else if hadPrev && reflect.DeepEqual(prevWarm, warm) {
+				key = "C08/stale-decision-after-policy-update" // the answer given before the token's policies changed is still served
 			}
 			if c.Violation(st.f, key, "token %v resolved through the shared cache decides differently from the same policies compiled alone with fresh caches: %s", ids, d) {
 				st.newCache()
@@ -551,7 +557,8 @@ func verifC08Run(f verifkit.F, rec *verifkit.Rec, qs []verifC08Q, ops []verifC08
 		f.Fatalf("harness: history must start with structs-init")
 	}
 	st := &verifC08State{f: f, c: c, qs: qs, init: ops[0], specs: map[string]verifC08Policy{}, rows: map[string]*ACLPolicy{},
-		texts: map[string]string{}, owner: map[string]string{}, seen: map[string]bool{}, modIx: 10}
+		texts: map[string]string{}, owner: map[string]string{}, seen: map[string]bool{}, modIx: 10,
+		last: map[string][]acl.EnforcementDecision{}}
 	c.Op(ops[0])
 	c.Label("target=structs-shared-cache")
 	if replay {
